@@ -114,7 +114,7 @@ ASSUMPTIONS = [
     'A-eval: the value of the decision logic is a function of the evaluator and of the ENTRIES of the one context it is evaluated over (logic_value; axiom_logic_value)',
 ]
 NOT_DECIDED = {'C04': ['that build_decision_evaluator collects the reference lists from the requirements as written and builds the logic evaluator from the decision logic (the part of the builder outside the closure)',
-                       'the service-as-function body closure of decision_service.rs (scope.peek -> evaluate -> pick the output variable) and what build_business_knowledge_model_evaluator hands to build_evaluator (formal parameters, body, result type)',
+                       'what the builders hand to the closures: the formal parameters of a service function (input data before input decisions), of a knowledge model, the reference lists collected from the requirements (bounded stand-in only)',
                        'boxed expression evaluators of builders/mod.rs (their scope half is under contract in unit purity)',
                        'independence of input entries outside the requirement closure beyond "they do not enter the logic context" (the callees\' own independence is the induction hypothesis)',
                        'what two requirements that produce the same name do to each other (later writer wins as coded; the property does not say)']}
@@ -232,3 +232,16 @@ BY_NAME = [
 _k = [i for i, p_ in enumerate(UNIT['parts']) if p_.get('key') == 'reqgraph::knowledge_model_closure'][0]
 UNIT['parts'][_k:_k] = BY_NAME
 UNIT['uses'] = UNIT['uses'] + ['use std::collections::HashMap;']
+
+# ---------------------------------------------------------------- a decision service called as a function: its body closure (R4, the first scope closure of the builder)
+SVC_FN = {'kind': 'closure', 'src': V, 'path': 'fn build_decision_service_evaluator', 'index': 0, 'name': 'service_function_body', 'key': 'reqgraph::service_function_body', 'props': P, 'auto_props': A, 'loops': 0, 'ret': 'r',
+          'lead_params': ['scope: &Scope'], 'extra_params': ['model_evaluator: &ModelEvaluator', 'decision_service_id: &String'],
+          'rewrites': [('R3',), ('RX', 'R11', r'FeelContext::default\(\)', 'feel_context_default()', None),
+                       ('RX', 'R8', r'scope\.peek\(\)', 'scope_peek(scope)', 1),
+                       ('RX', 'R4c', r'evaluate\(&decision_service_id, &input_data, &model_evaluator, ', 'evaluate(decision_service_id, &input_data, model_evaluator, ', 1)],
+          'body_prefix': PRE,
+          'requires': [('registries_readable', 'locks_ok(%s)' % ME), ('called_over_its_argument_context', 'scope.contexts@.len() > 0')],
+          'ensures': [('the_value_of_the_service_over_the_argument_context', 'ds_known(%s, decision_service_id@) ==> r == ds_value(%s, decision_service_id@, scope.contexts@.last().0@)' % (ME, ME)),
+                      ('null_when_there_is_no_such_service', '!ds_known(%s, decision_service_id@) ==> r is Null' % ME)]}
+_k = [i for i, p_ in enumerate(UNIT['parts']) if p_.get('key') == 'reqgraph::knowledge_model_closure'][0]
+UNIT['parts'][_k:_k] = [SVC_FN]
